@@ -13,7 +13,8 @@ CLAIMS = [
                       "it holds for all inputs because it is a property of every path.",
         "level_note": "Trusted: LALRPOP parsers accept only at end of stream; logos turns every input byte that no skip pattern matches "
                       "into a token or an Err item. F1 and F20 (both repaired) were found by / led to these rules. Text inside a "
-                      "well-terminated block comment is comment by definition, whatever it contains.",
+                      "well-terminated block comment is comment by definition, whatever it contains (two agent-reported consequences are "
+                      "documented as candidates). The comment depth changes only under CommentOpen / CommentClose tokens (comment-depth rule).",
     },
     {
         "id": "C16",
@@ -42,7 +43,9 @@ CLAIMS = [
                       "on confirmed defects of the pinned tree (F2, F3, F4, F10, F13; all repaired).",
         "level_note": "NOT decided: general panic freedom of the remaining invariant-justified unwrap/expect/index sites (the 34 inventoried "
                       "first-element invariants are declared by the source, not proved), termination, that diagnostic locations lie inside "
-                      "the file. Capacity conversions (usize->u32) out of scope.",
+                      "the file. Capacity conversions (usize->u32) out of scope. Added after round-2 seeds and agent reports: string-slice "
+                      "bounds by symbolic value flow (no constant byte offsets), partial helpers of zydeco_syntax reached from the front end, "
+                      "readers of the cyclic-able seals table (F31: `def L : VType = L` overflowed the stack), bounded format directives (F34).",
     },
     {
         "id": "C15",
@@ -81,7 +84,9 @@ CLAIMS = [
                       "checker's literal gates (Some edge stored, None edge OutOfRange, defaults Int64/Float64), no numeric cast. This "
                       "decides the property for the Rust side completely (171 obligations); no operand enumeration is needed.",
         "level_note": "Trusted: core's wrapping_*, PartialOrd, IEEE operators, TryInto, ToString. Native back ends (runtime/stub.rs) are "
-                      "outside the cargo workspace and not covered.",
+                      "outside the cargo workspace and not covered. The Float32 acceptance table checked is the property's (finite after "
+                      "narrowing): F35 (`1e999 : Float32` accepted) was repaired after a seeding agent showed my table had copied the code. "
+                      "Known finding F36: decimal text is rounded twice on the way to Float32 (text -> f64 -> f32).",
     },
     {
         "id": "C06",
@@ -209,7 +214,10 @@ CLAIMS = [
                       "Computation / Value variant that carries a value pattern is validated (binders outside match are one-clause matches) "
                       "and both arenas are visited.",
         "level_note": "NOT decided: soundness/completeness of the pattern-matrix algorithm against enumeration of values (a different "
-                      "technique); the traces encode my reading of Maranget's algorithm as implemented and alarm on any semantic edit.",
+                      "technique); the traces encode my reading of Maranget's algorithm as implemented and alarm on any semantic edit. Also "
+                      "decided: the irrefutability predicate behind alias patterns has no default arm and recurses everywhere. Known finding "
+                      "F37: the matrix is not inhabitation-aware (constructors() ignores payload types), so missing patterns that denote no "
+                      "value are reported for types with empty components; F27 (binders outside match never validated) was repaired.",
     },
     {
         "id": "C12",
@@ -224,7 +232,9 @@ CLAIMS = [
         "level_note": "NOT decided: that formatted output re-parses to the same term for every source (child-position requirements, punning, "
                       "telescope merging, directive nesting are not analysed). Some parseable sources still have no admissible layout: after "
                       "F14 they are reported as an error and left unchanged, which the property's first sentence still counts against the "
-                      "formatter (documented in DESIGN.md; not detectable by these rules).",
+                      "formatter (documented in DESIGN.md; not detectable by these rules). F32 (`1e999` printed as `inf`), F33 (metadata strings "
+                      "printed with Debug) and F34 (unbounded indent directive) were reported by seeding agents on the unchanged tree and "
+                      "repaired; the literal and directive rules now cover floats, metadata strings and the indent bound.",
     },
     {
         "id": "C13",
